@@ -4,6 +4,7 @@ use serde_json::Value;
 
 use crate::report::{CheckInfo, Partial, Tier, Violation};
 
+pub mod c09;
 pub mod c10;
 pub mod c11;
 pub mod c12;
@@ -25,6 +26,7 @@ pub fn all() -> Vec<CheckDef> {
     vec![
         srvchecks::def_c03(),
         srvchecks::def_c04(),
+        c09::def(),
         c10::def(),
         c11::def(),
         c12::def(),
